@@ -8,7 +8,7 @@
 (*         with the library's incremental matcher over the FULL tree),      *)
 (*         mapv, rewriteUid, calls:[raw, uid]}                              *)
 (***************************************************************************)
-EXTENDS WalkRef, FilterRef, Json, IOUtils, TLC
+EXTENDS WalkRef, FilterRef, FollowRef, Json, IOUtils, TLC
 
 Trace == ndJsonDeserialize(IOEnv.VERIF_TRACE)
 VARIABLES l, failed
@@ -29,8 +29,25 @@ FilterClauses(e) ==
            THEN {"C10.mapNotConsultedBeforeReport"} ELSE {})
      \cup (IF e.walkErr THEN {"C10.walkReturnedError"} ELSE {})
 
+FollowJudge(e) ==
+  LET T == [p \in PathsOf(e.tree) |-> At(e.tree, p)]
+      lit == SelectSeq(e.reqs, LAMBDA q : ~q.wild)
+      reqs == [k \in DOMAIN lit |-> lit[k].p]
+      onlyLit == Len(lit) = Len(e.reqs)
+  IN IF e.hang THEN {"C18.doesNotTerminate"}
+     ELSE IF e.err THEN {"C18.returnedError"}
+     ELSE Pfx("C18", IF onlyLit THEN FollowClauses(T, reqs, e.result, e.isNil, e.byteSorted)
+                     ELSE \* with wildcard requests only the structural clauses are judged on the literal elements
+                          (IF e.byteSorted THEN {} ELSE {"notSorted"})
+                          \cup (IF \A a, b \in DOMAIN e.result : a # b /\ ~e.resWild[a] /\ ~e.resWild[b] => ~IsPrefix(e.result[a], e.result[b])
+                                THEN {} ELSE {"elementInsideAnother"}))
+          \cup (IF e.synced /\ onlyLit /\ ~SameResolution(T, [p \in PathsOf(e.dst) |-> At(e.dst, p)], reqs)
+                THEN {"C18.requestResolvesDifferentlyAfterTransfer"} ELSE {})
+          \cup (IF e.syncFailed THEN {"C18.transferWithFollowPathsFailed"} ELSE {})
+
 Judge(e) ==
-  IF e.ev = "Walk" THEN Pfx("C09", WalkClauses(e.calls, e.tree, e.api = "FSsub")) \cup (IF e.walkErr THEN {"C09.walkReturnedError"} ELSE {})
+  IF e.ev = "Follow" THEN FollowJudge(e)
+  ELSE IF e.ev = "Walk" THEN Pfx("C09", WalkClauses(e.calls, e.tree, e.api = "FSsub")) \cup (IF e.walkErr THEN {"C09.walkReturnedError"} ELSE {})
   ELSE IF e.ev = "Filter" THEN FilterClauses(e)
   ELSE {"HARNESS.unknownEvent"}
 
